@@ -40,7 +40,9 @@ type srOp struct {
 	BLen   *int32 `json:"blen,omitempty"` // batchLength field; nil = Len-12 (well framed)
 	Off    int64  `json:"off,omitempty"`
 	Max    int32  `json:"max,omitempty"`
-	FailIx bool   `json:"fail_index,omitempty"` // fail: the index upload fails instead of the segment upload
+	FailIx bool   `json:"fail_index,omitempty"` // fail: the index upload fails instead of the segment upload; restart: the crashed process had uploaded the in-flight .kfs but not its .index
+	Store  int    `json:"store,omitempty"`      // restart: start offset = 0 last committed+1, 1 one commit behind, 2 the original start, 3 two ahead
+	Fresh  bool   `json:"fresh,omitempty"`      // restart: with an empty cache
 }
 
 type srCase struct {
@@ -168,15 +170,19 @@ func srRun(cs srCase) *srResult {
 	if cs.Cache > 0 {
 		sc = cache.NewSegmentCache(cs.Cache)
 	}
+	startAt := cs.Start
 	mk := func(topic string, part int32) *PartitionLog {
-		return NewPartitionLog("ns", topic, part, cs.Start, s3, sc, PartitionLogConfig{
+		return NewPartitionLog("ns", topic, part, startAt, s3, sc, PartitionLogConfig{
 			Buffer:       WriteBufferConfig{MaxBytes: 1 << 30, MaxBatches: cs.Auto},
 			Segment:      SegmentWriterConfig{IndexIntervalMessages: cs.Interval},
 			CacheEnabled: cs.Cache > 0,
 		}, nil, nil, nil)
 	}
 	// the log under test is partition 1 so that a constant 0 / default partition in a key is visible
+	topics := []string{"orders", "orders", "orders2"}
+	parts := []int32{1, 0, 1}
 	logs := []*PartitionLog{mk("orders", 1), mk("orders", 0), mk("orders2", 1)}
+	storeCur, storePrev := cs.Start, cs.Start // what onFlush would have published for the log under test
 	xors := []byte{0, 0x5a, 0xa5}
 	arts := make([]*SegmentArtifact, len(logs))
 	main := logs[0]
@@ -239,6 +245,7 @@ func srRun(cs srCase) *srResult {
 			res.steps = append(res.steps, fmt.Sprintf("SOp (OPrepare %s %s) %s %d %d %d", cqZ(created), cqZ(int64(crc)), cqZ(next), segsBefore, len(refBuf), 0))
 			emitOp("OCommit")
 			refSegs = append(refSegs, refBuf)
+			storePrev, storeCur = storeCur, refBuf[len(refBuf)-1].last+1
 			refBuf = nil
 			emitSeg(nsegs - 1)
 			res.tags["glue-flush"] = true
@@ -307,6 +314,7 @@ func srRun(cs srCase) *srResult {
 				if i == 0 {
 					if err == nil {
 						refSegs = append(refSegs, refFlight)
+						storePrev, storeCur = storeCur, refFlight[len(refFlight)-1].last+1
 					} else if res.requeue {
 						refBuf = append(append([]srBatch(nil), refFlight...), refBuf...)
 					} else {
@@ -333,6 +341,70 @@ func srRun(cs srCase) *srResult {
 				_ = l.Flush(ctx)
 			}
 			noteAutoFlush(segsBefore)
+		case "restart":
+			// the process dies: buffer and in-flight batches are gone; optionally the
+			// in-flight segment object had reached S3 without its index (orphan)
+			for i, l := range logs {
+				if arts[i] != nil && op.FailIx {
+					_ = s3.MemoryS3Client.UploadSegment(ctx, l.segmentKey(arts[i].BaseOffset), arts[i].SegmentBytes)
+				}
+				arts[i] = nil
+			}
+			if op.Fresh && cs.Cache > 0 {
+				sc = cache.NewSegmentCache(cs.Cache)
+			}
+			sn := storeCur
+			switch op.Store {
+			case 1:
+				sn = storePrev
+			case 2:
+				sn = cs.Start
+			case 3:
+				sn = storeCur + 2
+			}
+			failed := false
+			for i := range logs {
+				startAt = sn
+				if i > 0 { // the mirrored logs restart from their own last committed offset
+					startAt = cs.Start
+					logs[i].mu.Lock()
+					if n := len(logs[i].segments); n > 0 {
+						startAt = logs[i].segments[n-1].lastOffset + 1
+					}
+					logs[i].mu.Unlock()
+				}
+				nl := mk(topics[i], parts[i])
+				if _, err := nl.RestoreFromS3(ctx); err != nil {
+					failed = i == 0
+					if i == 0 {
+						break
+					}
+				}
+				logs[i] = nl
+			}
+			if failed {
+				res.tags["restore-failed"] = true
+				return res // no log, no reads: the history ends here
+			}
+			main = logs[0]
+			refFlight, refBuf = nil, nil
+			storeCur, storePrev = sn, sn
+			if n := len(refSegs); n > 0 {
+				if v := refSegs[n-1][len(refSegs[n-1])-1].last + 1; v > storeCur {
+					storeCur, storePrev = v, v
+				}
+			}
+			{
+				main.mu.Lock()
+				items := make([]string, len(main.segments))
+				for k, sr := range main.segments {
+					items[k] = fmt.Sprintf("(%s, %s, %s, %s)", cqZ(sr.baseOffset), cqZ(sr.lastOffset), cqZ(sr.size), srEntries(main.indexEntries[sr.baseOffset]))
+				}
+				next := main.nextOffset
+				main.mu.Unlock()
+				res.steps = append(res.steps, fmt.Sprintf("SRestart %s %s %s", cqZ(sn), cqZ(next), cqList(items)))
+			}
+			res.tags["restart"] = true
 		case "read":
 			srRead(cs, op, res, main, s3, live(), hist, refSegs, len(refFlight) > 0)
 		}
@@ -670,6 +742,10 @@ func srGen(r *vRand, focus string) srCase {
 		case x < 56 && !inflight:
 			cs.Ops = append(cs.Ops, srOp{K: "flush"})
 		}
+		if r.Chance(7) {
+			cs.Ops = append(cs.Ops, srOp{K: "restart", FailIx: r.Bool(), Store: []int{0, 0, 0, 1, 2, 3}[r.Intn(6)], Fresh: r.Bool()})
+			inflight = false
+		}
 		for k := r.Intn(3); k > 0; k-- {
 			if inflight || r.Chance(40) {
 				cs.Ops = append(cs.Ops, randRead())
@@ -731,6 +807,14 @@ func srCorpus() []srCase {
 		// gap after a failed flush; snap-forward
 		{Interval: 3, Ops: cat(srApp(2, 1, 70, 5), one("flush"), srApp(2, 1, 70, 7), one("prepare"), []srOp{{K: "fail"}}, srApp(2, 1, 70, 9), one("flush"), rd(5, 10), rd(4, 200), rd(9, 70))},
 	}
+	cases = append(cases,
+		// restart: buffered tail lost, fresh cache, sparse index re-read from S3
+		srCase{Interval: 3, Cache: 1 << 20, Ops: cat(srApp(4, 0, 70, 1), one("flush"), srApp(2, 0, 70, 9), []srOp{{K: "restart", Fresh: true}}, rd(2, 100), rd(3, 1), rd(4, 70), srApp(2, 1, 70, 5), rd(4, 1), rd(5, 0))},
+		// restart with an orphan .kfs (index upload never happened), store one commit behind
+		srCase{Interval: 1, Ops: cat(srApp(2, 1, 70, 1), one("flush"), srApp(2, 0, 70, 5), one("prepare"), []srOp{{K: "restart", FailIx: true}}, rd(3, 10), rd(4, 10), srApp(1, 2, 70, 7), one("flush"), rd(4, 70), rd(6, 1))},
+		// restart from a store that is ahead of S3: gap between the last segment and the new batches
+		srCase{Interval: 3, Ops: cat(srApp(3, 0, 70, 1), one("flush"), []srOp{{K: "restart", Store: 3}}, srApp(2, 0, 70, 5), rd(3, 10), rd(4, 10), rd(5, 100), one("flush"), rd(3, 10), rd(2, 200))},
+	)
 	if vTier() == "thorough" {
 		// the design-round probe: 120 one-record batches, interval 100, Read(99, 1024)
 		cases = append(cases, srCase{Interval: 100, Ops: cat(srApp(120, 0, 70, 0), one("flush"), rd(99, 1024), rd(100, 1024), rd(119, 1))})
@@ -789,7 +873,15 @@ func srTest(t *testing.T, prop string) {
 		if err := json.Unmarshal(rc, &cs); err != nil {
 			t.Fatalf("bad replay: %v", err)
 		}
-		runOne(cs)
+		mine := len(cs.Ops) > 0
+		for _, o := range cs.Ops { // a replay file of the fetch harness (ops "produce", "fetch") is not ours
+			if o.K == "produce" || o.K == "fetch" {
+				mine = false
+			}
+		}
+		if mine {
+			runOne(cs)
+		}
 	} else {
 		for _, cs := range srCorpus() {
 			runOne(cs)
